@@ -2,6 +2,7 @@
 from .world import OutOfSubset
 
 _memo = {}
+ALLOC_SINK = None      # when a set: keys touched only through fresh allocations are collected here instead of the result
 
 
 def struct_keys(w, sname):
@@ -78,17 +79,25 @@ def instr_modset(V, fn, x, stack):
     elif op == 'Alloc':
         el = prog.types[x['type']]['elem']
         uk, e = prog.under(el)
+        fresh = out if ALLOC_SINK is None else ALLOC_SINK
         if e['kind'] == 'struct':
-            out |= struct_keys(w, el) | {('alloc', el)}
+            fresh |= struct_keys(w, el)
+            out |= {('alloc', el)}
         elif e['kind'] == 'array':
-            out |= {('alloc', 'arr'), ('el', e['elem'])}
+            fresh |= {('el', e['elem'])}
+            out |= {('alloc', 'arr')}
         else:
-            out |= {('alloc', 'cell:' + el), ('cell', el)}
+            fresh |= {('cell', el)}
+            out |= {('alloc', 'cell:' + el)}
     elif op == 'MakeSlice':
-        out |= {('alloc', 'arr'), ('el', prog.under(x['type'])[1]['elem'])}
+        fresh = out if ALLOC_SINK is None else ALLOC_SINK
+        fresh |= {('el', prog.under(x['type'])[1]['elem'])}
+        out |= {('alloc', 'arr')}
     elif op == 'MakeMap':
         mt = x['type']
-        out |= {('alloc', 'map'), ('mdom', mt), ('msize', mt)}
+        fresh = out if ALLOC_SINK is None else ALLOC_SINK
+        fresh |= {('mdom', mt), ('msize', mt)}
+        out |= {('alloc', 'map')}
     elif op == 'MakeChan':
         out |= {('alloc', 'chan')}
     elif op == 'Convert':
@@ -107,8 +116,9 @@ def instr_modset(V, fn, x, stack):
     elif op == 'Next':
         out |= set(getattr(V, 'range_keys', {}).values())
     elif op == 'Go':
-        from .chans import chan_modset
-        out |= chan_modset(V, x) | call_modset(V, fn, x, stack)
+        from .chans import chan_modset, go_effects
+        mod, confined = go_effects(V, fn, x, stack)
+        out |= chan_modset(V, x) | mod | confined
     return out
 
 
@@ -190,7 +200,10 @@ def contract_modset(V, key, c, pkg):
     x.V = V
     for (ak, hkeys) in alloc_spaces(x, c['allocates'], pkg):
         out.add(ak)
-        out |= set(hkeys)
+        if ALLOC_SINK is None:
+            out |= set(hkeys)
+        else:
+            ALLOC_SINK.update(hkeys)
     for (ast, txt) in (c['assigns'] or []):
         out |= assigns_item_keys(V, ast, pkg, key)
     return out
@@ -242,6 +255,9 @@ def assigns_item_keys(V, ast, pkg, key):
             return {kk for kk in V.h0 if kk[0] == 'ghost' and kk[1] == args[0][1]}
         if name == 'cell':
             ty = static_type(V, args[0], pkg, key)
+            uk, e = prog.under(ty)
+            if e['kind'] == 'ptr':
+                ty = e['elem']
             return {('cell', ty)}
     raise OutOfSubset('assigns item %r in contract of %s' % (ast, key))
 
@@ -281,14 +297,14 @@ def static_type(V, ast, pkg, key):
 
 
 def func_modset(V, key, stack):
-    if key in _memo:
+    if key in _memo and ALLOC_SINK is None:
         return _memo[key]
     fn = V.world.prog.funcs[key]
     out = set()
     for blk in fn['blocks']:
         for x in blk['instrs']:
             out |= instr_modset(V, fn, x, stack)
-    if len(stack) <= 1:
+    if len(stack) <= 1 and ALLOC_SINK is None:
         _memo[key] = out
     return out
 
